@@ -7,7 +7,7 @@ import (
 )
 
 var profileC04 = []kindW{{"nftissue", 2}, {"nftmint", 4}, {"nftxfer", 2}, {"nftburn", 1}, {"nftsend", 12}, {"flow", 6}, {"round", 8},
-	{"recv", 1}, {"ack", 1}, {"replay", 2}, {"update", 1}, {"mocksend", 1}, {"rules", 1}}
+	{"recv", 1}, {"ack", 1}, {"replay", 2}, {"update", 1}, {"mocksend", 1}, {"rules", 1}, {"nftraid", 4}}
 
 func TestC04(t *testing.T) {
 	runProp(t, "C04",
